@@ -10,7 +10,7 @@ import shutil
 from . import core, tlc
 
 SPEC_DIR = os.path.join(core.SPECS, 'cell')
-ALL_DEFECTS = ['trait_uses_cpu', 'update_checks_request']
+ALL_DEFECTS = ['trait_uses_cpu', 'update_checks_request', 'clamp_free']
 
 
 def Q(cpu, memory, disk):
@@ -97,6 +97,20 @@ SCENARIOS = {
                    quantities=[Q(_CPU4[0], _MEM4[0], _DISK4[0]), Q(_CPU4[1], _MEM4[1], _DISK4[1]),
                                Q(_CPU4[2], _MEM4[2], _DISK4[2]), Q(_CPU4[3], _MEM4[3], _DISK4[3]),
                                Q(_CPU4[1], _MEM4[0], _DISK4[2]), Q(_CPU4[0], _MEM4[1], _DISK4[0])]),
+    # OVERSUBSCRIPTION: the partition record is rewritten smaller (capacity in one
+    # dimension, the gpu limit) or restored while reservations exist; demands with
+    # zero in one dimension in every zero spelling
+    'reconf': dict(ids=[('t1/a1', 'c1'), ('t1/a2', 'c1')], tables=[T_LIMITS], parts=['p1'],
+                   traitsets=[[], ['gpu']],
+                   quantities=[Q(pct(100), (1, 'G'), (1024, 'M')), Q(pct(200), (2, 'G'), (1, 'G')),
+                               Q(pct(100), (0, 'G'), (0, 'M')), Q(pct(0), (1, 'G'), (0, 'K')),
+                               Q(pct(0), (0, 'm'), (1, 'G')), Q(pct(0), (0, 'k'), (0, 'g'))],
+                   reconfs=[('c1', 'p1', Q(pct(300), (1, 'G'), (3, 'G')), T_LIMITS[0][3]),
+                            ('c1', 'p1', Q(pct(100), (3, 'G'), (3, 'G')), T_LIMITS[0][3]),
+                            ('c1', 'p1', Q(pct(300), (3, 'G'), (3, 'G')),
+                             {'gpu': Q(pct(200), (1, 'G'), (2048, 'M')), 'ssd': T_LIMITS[0][3]['ssd']}),
+                            ('c1', 'p1', Q(pct(300), (3, 'G'), (3, 'G')), {}),
+                            ('c1', 'p1') + tuple(T_LIMITS[0][2:])]),
     # smallest model that shows both defects (used for the Defects runs)
     'defect': dict(ids=[('t1/a1', 'c1'), ('t1/a2', 'c1')], tables=[T_LIMITS], parts=['p1'],
                    traitsets=[[], ['gpu']],
@@ -156,13 +170,17 @@ def mc_files(scn_name, tag='', defects=(), invariants=(), max_steps=-1, table_id
         'cParts == %s' % tla(set(scn['parts'])),
         'cTraitSets == {%s}' % ', '.join(tla(set(ts)) for ts in scn['traitsets']),
         'cQuantities == {%s}' % ',\n  '.join(tla_q(q) for q in scn['quantities']),
+        'cReconfs == <<%s>>' % ',\n  '.join(
+            '<<%s, %s, [cap |-> %s, limits |-> %s]>>' % (
+                tla(c), tla(p), tla_q(cap), tla_fun((tla(t), tla_q(l)) for t, l in sorted(lim.items())))
+            for c, p, cap, lim in scn.get('reconfs', [])),
         'cDefects == %s' % tla(set(defects)),
         'cMaxSteps == %s' % tla(max_steps),
         '====', ''])
     cfg = ['INIT Init', 'NEXT Next', 'CHECK_DEADLOCK FALSE', 'CONSTANTS',
            ' Ids <- cIds', ' PartTables <- cTables', ' PartNames <- cParts',
-           ' TraitSets <- cTraitSets', ' Quantities <- cQuantities', ' Defects <- cDefects',
-           ' MaxSteps <- cMaxSteps']
+           ' TraitSets <- cTraitSets', ' Quantities <- cQuantities', ' Reconfs <- cReconfs',
+           ' Defects <- cDefects', ' MaxSteps <- cMaxSteps']
     cfg += ['INVARIANT %s' % inv for inv in invariants]
     return mod, mod + '.cfg', {mod + '.tla': text, mod + '.cfg': '\n'.join(cfg) + '\n'}
 
@@ -220,7 +238,7 @@ CELLSYNC_INVARIANTS = ['InvAdmission', 'InvFresh', 'InvFreshUnits', 'InvDocCapac
 
 # ---------------------------------------------------------------------------
 # histories
-def from_labels(labels):
+def from_labels(labels, scn=None):
     """TLC action labels -> [(ev, id, r)]."""
     def opt(o):
         return o[0] if o else None
@@ -228,6 +246,10 @@ def from_labels(labels):
     for ev, args in labels:
         if ev == 'Sync':
             hist.append((ev, ('', args[0]), None))
+            continue
+        if ev == 'Reconfigure':
+            cell, part, cap, lim = SCENARIOS[scn]['reconfs'][args[0] - 1]
+            hist.append(('Reconf', ('', cell), dict(part=part, cap=cap, limits=lim)))
             continue
         if ev not in ('Create', 'Update', 'Delete', 'Assign', 'Unassign'):
             continue
@@ -377,6 +399,72 @@ def gen_traits(rng, depth):
     return table, hist
 
 
+def gen_oversub(rng, depth):
+    """Focused: OVERSUBSCRIPTION.  Reservations are made, then the partition
+    record is rewritten with a smaller capacity in one dimension or a smaller
+    trait limit (below what is already promised there), then requests arrive
+    that ask for exactly ZERO in that dimension -- in every spelling the schema
+    admits ('0%', '0K' '0k' '0M' '0m' '0G' '0g') -- and for something elsewhere,
+    next to ordinary requests; sometimes the record is restored."""
+    gib = 1048576
+    dims = ['cpu', 'memory', 'disk']
+    traits = ['gpu', 'ssd']
+    big = Q(pct(400), (4, 'G'), (4, 'G'))
+    limits = {t: Q(pct(300), (3, 'G'), (3, 'G')) for t in traits if rng.random() < 0.7}
+    table = [('c1', 'p1', big, limits)]
+    ids = [('t1/a1', 'c1'), ('t1/a2', 'c1'), ('t1:sub/a3', 'c1'), ('t2/a1', 'c1')]
+
+    def qty(zero_dims=()):
+        vals = dict(cpu=rng.choice([100, 100, 200]), memory=rng.choice([1, 1, 2]) * gib,
+                    disk=rng.choice([1, 1, 2]) * gib)
+        for d in zero_dims:
+            vals[d] = 0
+        return Q(pct(vals['cpu']), _spell_size(rng, vals['memory']), _spell_size(rng, vals['disk']))
+
+    hist, present = [], []
+    for ident in rng.sample(ids, rng.choice([2, 2, 3])):
+        hist.append(('Create', ident, dict(part='p1', tg=True, traits=sorted(
+            t for t in traits if rng.random() < 0.6), **qty())))
+        present.append(ident)
+    over = None
+    for _ in range(depth):
+        x = rng.random()
+        if over is None or x < 0.12:
+            d = rng.choice(dims)
+            small = dict(cpu=pct(rng.choice([0, 100])), memory=_spell_size(rng, rng.choice([0, 1]) * gib),
+                         disk=_spell_size(rng, rng.choice([0, 1]) * gib))[d]
+            if limits and rng.random() < 0.5:
+                t = rng.choice(sorted(limits))
+                new_limits = dict(limits, **{t: dict(limits[t], **{d: small})})
+                hist.append(('Reconf', ('', 'c1'), dict(part='p1', cap=big, limits=new_limits)))
+            else:
+                hist.append(('Reconf', ('', 'c1'), dict(part='p1', cap=dict(big, **{d: small}), limits=limits)))
+            over = d
+        elif x < 0.2:
+            hist.append(('Reconf', ('', 'c1'), dict(part='p1', cap=big, limits=limits)))
+            over = None
+        elif x < 0.28 and present:
+            ident = rng.choice(present)
+            present.remove(ident)
+            hist.append(('Delete', ident, None))
+        else:
+            absent = [i for i in ids if i not in present]
+            if absent and (rng.random() < 0.5 or not present):
+                ev, ident = 'Create', rng.choice(absent)
+                present.append(ident)
+            else:
+                ev, ident = 'Update', rng.choice(present)
+            zero = [over] if rng.random() < 0.75 else []
+            if zero and rng.random() < 0.3:
+                zero += [rng.choice([d for d in dims if d != over])]
+            tg = ev == 'Create' or rng.random() < 0.4
+            ts = sorted(t for t in traits if rng.random() < 0.5) if tg else []
+            if ev == 'Update' and tg and not ts:
+                ts = [rng.choice(traits)]
+            hist.append((ev, ident, dict(part='p1', tg=tg, traits=ts, **qty(zero))))
+    return table, hist
+
+
 def record(items):
     """items: [(name, src, table, history)] -> traces.  A history whose guards
     do not hold on the real directory (a Create that was rejected leaves the id
@@ -390,7 +478,7 @@ def record(items):
         done = []
         for ev, ident, r in hist:
             present = {(x['alloc'], x['cell']) for x in lines[-1]['post']['res']}
-            if ev == 'Sync':
+            if ev in ('Sync', 'Reconf'):
                 pass
             elif ev in ('Assign', 'Unassign'):
                 if ident not in present:
@@ -410,7 +498,7 @@ def record(items):
                     continue
             out, exn = world.request(ev, ident, r)
             line = dict(ev=ev, id=dict(alloc=ident[0], cell=ident[1]), out=out, exc=exn,
-                        post=world.project())
+                        post=world.project(with_parts=(ev == 'Reconf')))
             if r is not None:
                 line['r'] = drv.norm_request(r)
             lines.append(line)
